@@ -25,6 +25,9 @@ type outcomeSpec struct {
 	ExcValue *idl.V            `json:"exc_value,omitempty"`
 	AppType  int32             `json:"app_type,omitempty"`
 	RespHdr  map[string]string `json:"resp_headers,omitempty"`
+	// Expect is what the caller must observe when it is not Value itself (a handler that returns the
+	// nil slice / map / byte slice: the caller observes the empty collection and no error).
+	Expect *idl.V `json:"-"`
 }
 
 type callSpec struct {
@@ -192,6 +195,12 @@ func runC03(res *result) {
 					if len(vs) > 1 {
 						outcomes = append(outcomes, &outcomeSpec{Kind: "return", Value: vs[1]})
 					}
+					switch retRT.K {
+					case "list", "set", "map":
+						outcomes = append(outcomes, &outcomeSpec{Kind: "return", Expect: &idl.V{K: retRT.K, E: []*idl.V{}}})
+					case "binary":
+						outcomes = append(outcomes, &outcomeSpec{Kind: "return", Expect: &idl.V{K: "bin", S: ""}})
+					}
 				} else {
 					outcomes = append(outcomes, &outcomeSpec{Kind: "return"})
 				}
@@ -259,8 +268,13 @@ func runC03(res *result) {
 				case "return":
 					if cr.ErrKind != "" {
 						bad, kind = "caller got error "+cr.ErrKind+" "+cr.ErrMsg, "unexpected-error"
-					} else if cs.RetType != nil && canonOf(cr.Ret) != canonOf(oc.Value) {
-						bad, kind = fmt.Sprintf("caller got %s, handler returned %s", canonOf(cr.Ret), canonOf(oc.Value)), "return-value-differs"
+					} else if want := oc.Value; cs.RetType != nil {
+						if oc.Expect != nil {
+							want = oc.Expect
+						}
+						if canonOf(cr.Ret) != canonOf(want) {
+							bad, kind = fmt.Sprintf("caller got %s, handler returned %s", canonOf(cr.Ret), canonOf(want)), "return-value-differs"
+						}
 					}
 					if cs.Oneway && cs.Transport != "tcp" && len(cr.ReplyFrames) != 0 {
 						bad, kind = fmt.Sprintf("a successful oneway call produced %d reply frame(s)", len(cr.ReplyFrames)), "oneway-reply"
